@@ -581,7 +581,7 @@ def spec_lex(src):
             i = m.end()
             continue
         if c in '"`':
-            m = gogen._STR.match(src, i)
+            m = _match_string(src, i)
             if not m:
                 raise ValueError("bad string at %d" % i)
             out.append((i, "S", m.group()))
@@ -589,7 +589,7 @@ def spec_lex(src):
             i = m.end()
             continue
         if c == "'":
-            m = gogen._RUNE.match(src, i)
+            m = _match_rune(src, i)
             if not m:
                 raise ValueError("bad rune at %d" % i)
             out.append((i, "R", m.group()))
@@ -606,6 +606,38 @@ def spec_lex(src):
             raise ValueError("unexpected character %r at %d" % (c, i))
     asi()
     return out
+
+
+# the spec's rune and string literals, exactly (escapes: simple, 3 octal digits <= 255, \\x + 2 hex, \\u + 4 hex,
+# \\U + 8 hex; \\u / \\U values are Unicode scalar values; \\' only in runes, \\" only in strings)
+_ESCAPE = r"\\(?:[abfnrtv\\%s]|[0-3][0-7]{2}|x[0-9a-fA-F]{2}|u[0-9a-fA-F]{4}|U[0-9a-fA-F]{8})"
+_RUNE_RE = re.compile(r"'(?:[^'\\\n]|" + _ESCAPE % "'" + r")'")
+_ISTR_RE = re.compile(r'"(?:[^"\\\n]|' + _ESCAPE % '"' + r')*"')
+_RAW_RE = re.compile(r"`[^`]*`", re.S)
+_UESC = re.compile(r"\\(?:\\|u([0-9a-fA-F]{4})|U([0-9a-fA-F]{8}))")
+
+
+def _scalar_escapes_ok(text):
+    for m in _UESC.finditer(text):
+        h = m.group(1) or m.group(2)
+        if h is None:
+            continue
+        v = int(h, 16)
+        if v > 0x10FFFF or 0xD800 <= v <= 0xDFFF:
+            return False
+    return True
+
+
+def _match_rune(src, i):
+    m = _RUNE_RE.match(src, i)
+    return m if m and _scalar_escapes_ok(m.group()) else None
+
+
+def _match_string(src, i):
+    if src[i] == "`":
+        return _RAW_RE.match(src, i)
+    m = _ISTR_RE.match(src, i)
+    return m if m and _scalar_escapes_ok(m.group()) else None
 
 
 def _line_ends(src, k):
